@@ -257,10 +257,16 @@ class TcpConnection():
                 self.sock.send(b"")
                 return True
 
-            except OSError as e:
-                if e.args[0] == 10057:
-                    self.connection_attempts -= self.connection_attempts
-                    return False
+            except BlockingIOError:
+                #: The non-blocking connect is still in progress.
+                continue
+
+            except OSError:
+                #: The connection attempt has failed: refused, unreachable, 
+                #: reset (ECONNREFUSED and then EPIPE on Linux, WSAENOTCONN 
+                #: 10057 on Windows). Looping on would never end.
+                self.connection_attempts -= self.connection_attempts
+                return False
 
 
 
